@@ -21,7 +21,7 @@ func init() { fw.Register(c16{}) }
 
 func (c16) ID() string { return "C16" }
 func (c16) Rule() string {
-	return "every byte string of length <=4 (thorough: <=5) over a 31-symbol alphabet (0 1 9 a e E x b f _ . + - \" ` \\ / * = < ! & | : space newline NUL 0xC3 ( ) CR) in file and line mode, " +
+	return "every byte string of length <=4 (thorough: <=5) over a 32-symbol alphabet (0 1 9 a e E x b f _ . + - \" ` \\ / * = < ! & | : space newline NUL 0xC3 ( ) CR) in file and line mode, " +
 		"random strings of length 5..60 over all bytes, the shipped .gr corpus and byte mutations of it; for each input the monitor calls NextToken until the end marker, " +
 		"recomputes every token's span from Lexer.Pos() and checks tiling, literal=bytes, string/comment spans against its own scanner, stickiness of the end marker, token count <= n+1, " +
 		"interning and keyword classification. non-trivial = input with >=1 non-end token; distinct = distinct (input, mode)."
@@ -39,7 +39,7 @@ func (c16) Assumptions() []string {
 		"an unterminated string or block comment may only be followed by the end marker"}
 }
 
-var c16Alphabet = []byte{'0', '1', '9', 'a', 'e', 'E', 'x', 'b', 'f', '_', '.', '+', '-', '"', '`', '\\', '/', '*', '=', '<', '!', '&', '|', ':', ' ', '\n', 0, 0xC3, '(', ')', '\r'}
+var c16Alphabet = []byte{'0', '1', '9', 'a', 'e', 'E', 'x', 'b', 'f', '_', '.', '+', '-', '"', '`', '\\', '/', '*', '=', '<', '!', '&', '|', ':', ' ', '\n', 0, 0xC3, '(', ')', '\r', '\v'}
 
 func isWS(b byte) bool { return b == ' ' || b == '\t' || b == '\n' || b == '\r' }
 
@@ -243,7 +243,8 @@ func c16Check(in []byte, lineMode bool) (kind, detail string, ntok int) {
 			if !strings.HasPrefix(span, "//") || end != e {
 				return "comment-span", fmt.Sprintf("line comment spans [%d,%d) %q, expected up to %d", start, end, span, e), ntok
 			}
-			if lit != strings.TrimSpace(span) {
+			// the token's text is the bytes it spans, less trailing blanks (space, tab, CR: what the lexer skips as whitespace)
+			if lit != strings.TrimRight(span, " \t\r") {
 				return "comment-literal", fmt.Sprintf("line comment %q has literal %q", span, lit), ntok
 			}
 		case token.BLOCKCOMMENT:
